@@ -144,7 +144,29 @@ def run(facts, R):
         other = [(i, t) for i, t in lb.calls() if "HashMap" in t["callee"]["path"] and t["callee"]["name"] in ("get", "get_mut", "insert", "drain", "clear", "retain", "iter", "values", "iter_mut", "values_mut", "entry")]
         R.check(not other, "deliver-by-key", lb.path, "no other map access", "the response loop also touches the pending map through %s" % [t["callee"]["name"] for _, t in other], lb.span)
         aggs = [(i, j, s) for i, j, s in lb.assigns() if s["rv"].get("agg") == "adt" and s["rv"]["adt"].endswith("PendingDispatch") and s["rv"]["variant"] == "Matched"]
-        R.check(len(aggs) == 1, "deliver-by-key", lb.path, "one Matched row", "found %d Matched constructions" % len(aggs), lb.span)
+        direct = []
+        if not aggs and len(removes) == 1:
+            # no intermediate PendingDispatch value: the removed sender is used directly
+            ri0 = removes[0][0]
+            for si, st in lb.calls():
+                if st["callee"]["name"] == "send" and len(st["args"]) == 2 and any(x[0] == "call" and len(x) > 3 and x[3] == ri0 for x in walk(ls.op(st["args"][0]))):
+                    direct.append((si, st))
+        R.check(len(aggs) == 1 or len(direct) == 1, "deliver-by-key", lb.path, "one Matched row", "found %d Matched constructions / %d direct sends" % (len(aggs), len(direct)), lb.span)
+        if len(removes) == 1 and len(direct) == 1 and not aggs:
+            ri, rt = removes[0]
+            key = ls.op(rt["args"][1])
+            ok_key = key[0] == "field" and key[2] == "id" and key[1][0] == "field" and key[1][2] == "header"
+            resp = key[1][1] if ok_key else None
+            R.check(ok_key, "deliver-by-key", lb.path, "remove(response.header.id)", "pending.remove is keyed by %s" % render(key), rt.get("span"), render(key))
+            si, st = direct[0]
+            a0, a1 = ls.op(st["args"][0]), ls.op(st["args"][1])
+            ok = "as Some).0" in render(a0) and a1[0] == "agg" and a1[2] == "Ok" and resp is not None and dict(a1[3])["0"] == resp
+            R.check(ok, "deliver-by-key", lb.path, "send(Ok(response)) to the matched sender", "send(%s, %s)" % (render(a0)[:120], render(a1)[:120]), st.get("span"),
+                    "sender = pending.remove(id) value, response = the message whose id was the key")
+            reads = [x for x, y in lb.calls() if callee_matches(y["callee"], "io::read_message", "async_io::read_message_async")
+                     or (y["callee"]["name"] == "next" and "Stream" in (y["callee"].get("trait") or ""))]
+            R.check(len(reads) == 1 and not _in_inner_cycle(lb, si, reads[0]), "deliver-by-key", lb.path, "delivered once per response",
+                    "the matched send can repeat without reading another response", st.get("span"), "send lies only on the read loop")
         if len(removes) == 1 and len(aggs) == 1:
             ri, rt = removes[0]
             key = ls.op(rt["args"][1])
